@@ -221,9 +221,22 @@ def _client_raise(repo: Path) -> list[tuple[str, str]]:
         if kw.arg is None:
             raise TranslationBroken(site, "RpcError(**kwargs)")
         rows.append((kw.arg, " ".join(origin(kw.value).split())))
-    for nm in ("level_str", "message_str", "raw_extra_data", "raw_extra"):
-        if nm not in defs:
-            raise TranslationBroken(site, f"{nm} is not defined")
+    # transitive closure: every local the arguments are computed from, in order of first use
+    todo = [a.id for a in list(call.args) + [k.value for k in call.keywords] if isinstance(a, ast.Name)]
+    seen = set(todo)
+    order: list[str] = []
+    while todo:
+        nm = todo.pop(0)
+        for d in defs.get(nm, []):  # type: ignore[union-attr]
+            for sub in ast.walk(ast.parse(d, mode="eval")):
+                if isinstance(sub, ast.Name) and sub.id in defs and sub.id not in seen:
+                    seen.add(sub.id)
+                    todo.append(sub.id)
+                    order.append(sub.id)
+    for nm in ("level_str", "message_str", "raw_extra_data"):
+        if nm not in seen:
+            raise TranslationBroken(site, f"{nm} does not feed RpcError any more")
+    for nm in order:
         rows.append((nm, " ".join(" | ".join(defs[nm]).split())))  # type: ignore[arg-type]
     return rows
 
